@@ -498,6 +498,9 @@ func (vc *VC) store(x *ssa.Store) {
 // object: GB:hasnl[addr] - "the content has a line break" (C16). A fresh builder is empty.
 const builderArr, builderSort = "GB:hasnl", "(Array Int Bool)"
 
+// GB:len[addr]: the number of bytes accumulated in the builder (C20: placeholders keep offsets valid)
+const builderLenArr, builderLenSort = "GB:len", "(Array Int Int)"
+
 func isBuilderType(t types.Type) bool {
 	if nt, ok := t.(*types.Named); ok && nt.Obj().Pkg() != nil {
 		q := nt.Obj().Pkg().Path() + "." + nt.Obj().Name()
@@ -512,6 +515,7 @@ func (vc *VC) zeroBuilders(ref Term, t types.Type, depth int) {
 	}
 	if isBuilderType(t) {
 		vc.setArr(builderArr, builderSort, Sto(vc.arrCur(builderArr, builderSort), ref, "false"))
+		vc.setArr(builderLenArr, builderLenSort, Sto(vc.arrCur(builderLenArr, builderLenSort), ref, "0"))
 		return
 	}
 	st, ok := t.Underlying().(*types.Struct)
